@@ -118,6 +118,12 @@ class Env:
     def __init__(self, leaves, counting=False, sql_engine_cls=None, iter_engine_cls=None):
         from lsst.daf.relation import iteration, sql
 
+        from . import expr as _expr
+
+        # one library object per distinct expression / predicate AST within a case: user code re-uses such objects
+        # across calls, and state leaking through them (cached column sets) has to be visible to the checks
+        self.lib_cache = {}
+        _expr.set_cache(self.lib_cache)
         self.leaves = leaves
         self.counting = counting
         S = (sql_engine_cls or sql.Engine)(name="S")
@@ -259,6 +265,9 @@ class Env:
         return [dict(r) for r in rel.engine.execute(rel)]
 
     def close(self):
+        from . import expr as _expr
+
+        _expr.set_cache(None)
         conn = db()
         for t in self.tables:
             try:
